@@ -23,6 +23,15 @@ still point into the file as it is on disk.
         if T: ...return           ->  if T: ...return
         else: B                       B
       (`return` / `raise` / `continue` / `break` as last statement of the arm).
+  N5  guard helpers: a call statement `_h(a, b)` / `self._h(a)` / a nested
+      `_h()` whose callee (private; same function, same class or same module;
+      defined once) consists only of `if T: raise E` statements, has plain
+      positional parameters and no locals, and whose arguments are names,
+      attribute chains or constants, is replaced by the callee's guards with
+      the parameters substituted.  (A guard moved into such a helper and
+      called at the same place is the same guard.)  The helper is resolved
+      within the class body it is called from: an override in a subclass
+      outside that body is not seen - stated limit.
 """
 import ast
 
@@ -145,8 +154,159 @@ def _flatten_else(stmts):
   return out
 
 
+# ---------------------------------------------------------------------------
+# N5: guard helpers are inlined at their call sites
+# ---------------------------------------------------------------------------
+
+def _guard_body(fn):
+  """The statements of a guard-only helper (optional docstring, then one or more
+  `if T: raise E` without else), or None."""
+  body = list(fn.body)
+  if body and isinstance(body[0], ast.Expr) and isinstance(body[0].value, ast.Constant) \
+      and isinstance(body[0].value.value, str):
+    body = body[1:]
+  if not body:
+    return None
+  for st in body:
+    if not (isinstance(st, ast.If) and not st.orelse and len(st.body) == 1 and isinstance(st.body[0], ast.Raise)
+            and st.body[0].exc is not None):
+      return None
+  a = fn.args
+  if a.vararg or a.kwarg or a.kwonlyargs or a.defaults or a.posonlyargs:
+    return None
+  params = [x.arg for x in a.args]
+  for n in ast.walk(fn):
+    if isinstance(n, ast.Name) and isinstance(n.ctx, (ast.Store, ast.Del)):
+      return None                     # a helper with locals of its own is not a pure guard
+    if isinstance(n, (ast.NamedExpr, ast.Lambda, ast.Yield, ast.YieldFrom, ast.Await, ast.Global, ast.Nonlocal,
+                      ast.ListComp, ast.SetComp, ast.DictComp, ast.GeneratorExp)):
+      return None
+  if fn.decorator_list and not all(isinstance(d, ast.Name) and d.id == 'staticmethod' for d in fn.decorator_list):
+    return None
+  return params, body
+
+
+class _Subst(ast.NodeTransformer):
+
+  def __init__(self, mapping):
+    self.mapping = mapping
+
+  def visit_Name(self, node):
+    if isinstance(node.ctx, ast.Load) and node.id in self.mapping:
+      import copy
+      return ast.copy_location(copy.deepcopy(self.mapping[node.id]), node)
+    return node
+
+
+def _pure_arg(e):
+  if isinstance(e, (ast.Name, ast.Constant)):
+    return True
+  if isinstance(e, ast.Attribute):
+    return _pure_arg(e.value)
+  return False
+
+
+def _inline_guard_helpers(tree):
+  import copy
+  module_helpers = {}
+  for st in tree.body:
+    if isinstance(st, ast.FunctionDef) and st.name.startswith('_'):
+      gb = _guard_body(st)
+      if gb is not None:
+        module_helpers[st.name] = gb
+  # a name defined twice at module level is not a stable helper
+  seen = {}
+  for st in tree.body:
+    if isinstance(st, (ast.FunctionDef, ast.AsyncFunctionDef, ast.ClassDef)):
+      seen[st.name] = seen.get(st.name, 0) + 1
+  module_helpers = {k: v for k, v in module_helpers.items() if seen.get(k) == 1}
+
+  def expand(call, scope_helpers, class_helpers):
+    f = call.func
+    if call.keywords or not all(_pure_arg(a) for a in call.args):
+      return None
+    if isinstance(f, ast.Name):
+      gb = scope_helpers.get(f.id) or module_helpers.get(f.id)
+      args = list(call.args)
+    elif isinstance(f, ast.Attribute) and isinstance(f.value, ast.Name) and f.value.id in ('self', 'cls') \
+        and f.attr.startswith('_') and not f.attr.startswith('__'):
+      gb = class_helpers.get(f.attr)
+      if gb is not None and gb[2] != 'static':
+        args = [f.value] + list(call.args)
+      else:
+        args = list(call.args)
+      gb = gb[:2] if gb is not None else None
+    else:
+      return None
+    if gb is None:
+      return None
+    params, body = gb
+    if len(params) != len(args):
+      return None
+    sub = _Subst(dict(zip(params, args)))
+    return [sub.visit(copy.deepcopy(st)) for st in body]
+
+  def rewrite(stmts, scope_helpers, class_helpers):
+    out = []
+    for st in stmts:
+      if isinstance(st, ast.Expr) and isinstance(st.value, ast.Call):
+        ex = expand(st.value, scope_helpers, class_helpers)
+        if ex is not None:
+          out.extend(ex)
+          continue
+      out.append(st)
+    return out
+
+  def visit_function(fn, class_helpers):
+    scope_helpers = {}
+    for st in fn.body:
+      if isinstance(st, ast.FunctionDef):
+        gb = _guard_body(st)
+        if gb is not None:
+          scope_helpers[st.name] = gb
+    def walk_block(stmts):
+      stmts = rewrite(stmts, scope_helpers, class_helpers)
+      for st in stmts:
+        if isinstance(st, (ast.FunctionDef, ast.AsyncFunctionDef)):
+          visit_function(st, class_helpers)
+          continue
+        if isinstance(st, ast.ClassDef):
+          visit_class(st)
+          continue
+        for fld in ('body', 'orelse', 'finalbody'):
+          sub = getattr(st, fld, None)
+          if isinstance(sub, list) and sub and all(isinstance(x, ast.stmt) for x in sub):
+            setattr(st, fld, walk_block(sub))
+        if isinstance(st, ast.Try):
+          for h in st.handlers:
+            h.body = walk_block(h.body)
+      return stmts
+    fn.body = walk_block(fn.body)
+
+  def visit_class(cls):
+    helpers = {}
+    for st in cls.body:
+      if isinstance(st, ast.FunctionDef) and st.name.startswith('_') and not st.name.startswith('__'):
+        gb = _guard_body(st)
+        if gb is not None:
+          kind = 'static' if st.decorator_list else 'method'
+          helpers[st.name] = (gb[0], gb[1], kind)
+    for st in cls.body:
+      if isinstance(st, (ast.FunctionDef, ast.AsyncFunctionDef)):
+        visit_function(st, helpers)
+      elif isinstance(st, ast.ClassDef):
+        visit_class(st)
+
+  for st in tree.body:
+    if isinstance(st, (ast.FunctionDef, ast.AsyncFunctionDef)):
+      visit_function(st, {})
+    elif isinstance(st, ast.ClassDef):
+      visit_class(st)
+
+
 def normalize(tree):
   """In-place normalisation of every function of a module tree."""
+  _inline_guard_helpers(tree)
   for fn in ast.walk(tree):
     if isinstance(fn, (ast.FunctionDef, ast.AsyncFunctionDef)):
       stats = _name_stats(fn)
